@@ -3,6 +3,7 @@ package main
 import (
 	"encoding/json"
 	"fmt"
+	"sort"
 	"strings"
 	"time"
 
@@ -96,110 +97,80 @@ func runC04(c *Ctx) {
 		}
 		g := w2.BuildGraph()
 		o := expOpts{Skip: i%4 >= 2, Continue: i%2 == 1, Absolute: i%7 == 0, Refuse: refuse}
-		cs := map[string]interface{}{"world": worldJSON(w2), "ids": flavour, "faults": fs, "options": o.String(), "family": fam.name}
 		nontrivial := g.Cyclic() || len(fs) > 0
 		c.Hit("ids:" + flavour)
 		c.Hit("options:" + o.String())
 		knownShape := relDirIDPresent(w2)
-		sigOf := func(s string) string {
-			if knownShape {
-				return s + ":relative-directory-id"
-			}
-			return s
-		}
 		// ExpandSpec
 		c.Count(fmt.Sprint(worldJSON(w2), o.String(), "spec"), nontrivial)
 		c.Hit("entry:ExpandSpec")
-		if flavour != "none" {
-			// schemas with ids can send the expander into unbounded recursion (K-C04-1): run these in a child
-			// process that can be killed, instead of leaking a spinning goroutine into this one
-			var refused []string
-			for u := range refuse {
-				refused = append(refused, u)
+		// every call runs in a child process (12 at a time, killed after 6 s): unbounded recursion ends in a
+		// fatal stack overflow that no recover() can catch, and a spinning goroutine cannot be stopped
+		var refused []string
+		for u := range refuse {
+			refused = append(refused, u)
+		}
+		sort.Strings(refused)
+		spec0 := entryCall{Entry: "spec", Skip: o.Skip, Cont: o.Continue, Abs: o.Absolute, Refuse: refused}
+		calls := []entryCall{spec0}
+		for j, el := range rootElements(w2, "definitions", "schemaWithBase") {
+			if j < 2 {
+				el.Skip, el.Cont, el.Abs, el.Refuse = o.Skip, o.Continue, o.Absolute, refused
+				calls = append(calls, el)
 			}
-			calls := []entryCall{{Entry: "spec", Skip: o.Skip, Cont: o.Continue, Abs: o.Absolute, Refuse: refused}}
-			for j, el := range rootElements(w2, "definitions", "schemaWithBase") {
-				if j < 2 {
-					el.Skip, el.Cont, el.Abs, el.Refuse = o.Skip, o.Continue, o.Absolute, refused
-					calls = append(calls, el)
+		}
+		if len(w2.Docs) == 1 {
+			for _, els := range [][]entryCall{rootElements(w2, "definitions", "schemaRoot"), rootElements(w2, "parameters", "paramRoot"), rootElements(w2, "responses", "respRoot")} {
+				if len(els) > 0 {
+					calls = append(calls, els[0])
 				}
 			}
-			for _, call := range calls {
-				ecs := map[string]interface{}{"world": worldJSON(w2), "ids": flavour, "faults": fs, "options": o.String(), "call": call, "family": fam.name}
-				c.Hit("entry:" + call.Entry + "(child)")
-				jobs = append(jobs, childJob{hc: histCall{World: worldJSON(w2), Call: call}, cs: ecs, known: knownShape})
-			}
-			continue
 		}
-		res := expandWorld(w2, o)
-		if res.Hang {
-			c.Fail(Failure{Kind: "crash", Sig: sigOf("C04:hang"), What: "ExpandSpec did not return within 20 s", Case: cs})
-			if knownShape {
-				continue // the runaway goroutine keeps burning CPU: do not pile more onto the same world
+		for _, els := range [][]entryCall{rootElements(w2, "parameters", "param"), rootElements(w2, "responses", "resp")} {
+			if len(els) > 0 {
+				el := els[0]
+				el.Refuse = refused
+				calls = append(calls, el)
 			}
 		}
-		if res.Panic != "" {
-			c.Fail(Failure{Kind: "crash", Sig: sigOf("C04:panic"), What: "ExpandSpec panicked: " + clip(res.Panic), Case: cs})
-		}
-		var okLoads []string
-		for _, u := range res.Loads {
-			if _, exists := w2.Docs[u]; exists && !refuse[u] {
-				okLoads = append(okLoads, u)
-			}
-		}
-		if u, dup := hasDup(okLoads); dup {
-			c.Fail(Failure{Kind: "oracle", Sig: "C04:document-fetched-twice", What: u + " was requested twice from the loader within one expansion (work not bounded by the acyclic unfolding)", Case: cs})
-		}
-		// the model on the abstracted world (ids are not part of the abstraction: only for id-free worlds)
-		if flavour == "none" && c.Driver != "" && c.HasOp("xexpand") && !o.Skip {
-			in := normRootDoc(w2)
-			win := w2.Clone()
-			win.Docs[w2.Root] = in
-			var trees []interface{}
-			for _, ci := range refgraph.Children("swagger", in) {
-				trees = append(trees, win.Abstract(w2.Root, ci.Kind, ci.Val).Wire())
-			}
-			if len(trees) > 0 && !res.Hang && res.Panic == "" {
-				impl := "ok"
-				if res.Err != nil {
-					impl = "err"
-				}
-				c.Corr(map[string]interface{}{"op": "xexpand", "world": win.AbstractWorld(g.KindOf), "trees": trees, "continue": o.Continue, "project": "status"}, impl, "exact", cs)
-			}
-		}
-		if knownShape {
-			continue
-		}
-		// single-element entry points on every element of the root
-		rootDoc := w2.Docs[w2.Root]
-		for _, sec := range []struct{ section, kind string }{{"definitions", "schema"}, {"parameters", "parameter"}, {"responses", "response"}} {
-			m, ok := rootDoc.Get(sec.section)
-			if !ok || m.Kind != wire.Obj {
-				continue
-			}
-			for _, mem := range m.O {
-				entries := []string{}
-				switch sec.kind {
-				case "schema":
-					entries = []string{"ExpandSchemaWithBasePath", "ExpandSchema"}
-				case "parameter":
-					entries = []string{"ExpandParameterWithRoot", "ExpandParameter"}
-				case "response":
-					entries = []string{"ExpandResponseWithRoot", "ExpandResponse"}
-				}
-				for _, entry := range entries {
-					ecs := map[string]interface{}{"world": worldJSON(w2), "ids": flavour, "faults": fs, "options": o.String(), "entry": entry, "element": []string{sec.section, mem.K}}
-					c.Count(fmt.Sprint(worldJSON(w2), o.String(), entry, mem.K), nontrivial)
-					c.Hit("entry:" + entry)
-					pan, hang := timed(expWatchdog(), func() { callEntry(w2, entry, mem.V, rootDoc, o) })
-					if hang {
-						c.Fail(Failure{Kind: "crash", Sig: "C04:hang", What: entry + " did not return within 20 s", Case: ecs})
+		for ci, call := range calls {
+			ecs := map[string]interface{}{"world": worldJSON(w2), "ids": flavour, "faults": fs, "options": o.String(), "call": call, "family": fam.name}
+			c.Count(fmt.Sprint(worldJSON(w2), o.String(), call), nontrivial)
+			c.Hit("entry:" + call.Entry)
+			job := childJob{hc: histCall{World: worldJSON(w2), Call: call}, cs: ecs, known: knownShape}
+			if ci == 0 {
+				// the whole-spec call also feeds the work-bound oracle and the model's status correspondence
+				wcopy, refuseCopy, flav, oo, gg := w2, refuse, flavour, o, g
+				job.post = func(r entryResult) {
+					var okLoads []string
+					for _, u := range r.Loads {
+						if _, exists := wcopy.Docs[u]; exists && !refuseCopy[u] {
+							okLoads = append(okLoads, u)
+						}
 					}
-					if pan != "" {
-						c.Fail(Failure{Kind: "crash", Sig: "C04:panic", What: entry + " panicked: " + clip(pan), Case: ecs})
+					if u, dup := hasDup(okLoads); dup {
+						c.Fail(Failure{Kind: "oracle", Sig: "C04:document-fetched-twice", What: u + " was requested twice from the loader within one expansion (work not bounded by the acyclic unfolding)", Case: ecs})
+					}
+					// ids are not part of the abstraction: model status only for id-free worlds, full expansion
+					if flav == "none" && c.Driver != "" && c.HasOp("xexpand") && !oo.Skip {
+						in := normRootDoc(wcopy)
+						win := wcopy.Clone()
+						win.Docs[wcopy.Root] = in
+						var trees []interface{}
+						for _, ci := range refgraph.Children("swagger", in) {
+							trees = append(trees, win.Abstract(wcopy.Root, ci.Kind, ci.Val).Wire())
+						}
+						if len(trees) > 0 {
+							impl := "ok"
+							if r.Err != "" {
+								impl = "err"
+							}
+							c.Corr(map[string]interface{}{"op": "xexpand", "world": win.AbstractWorld(gg.KindOf), "trees": trees, "continue": oo.Continue, "project": "status"}, impl, "exact", ecs)
+						}
 					}
 				}
 			}
+			jobs = append(jobs, job)
 		}
 		if len(c.Res.Samples) < 3 && g.Cyclic() && len(fs) > 0 {
 			c.Sample(map[string]interface{}{"family": fam.name, "ids": flavour, "faults": fs, "options": o.String()})
@@ -211,6 +182,7 @@ type childJob struct {
 	hc    histCall
 	cs    map[string]interface{}
 	known bool
+	post  func(entryResult) // run on the result of a child that returned normally
 }
 
 // runChildJobs runs the queued calls in child processes, 12 at a time, each killed after 6 s.
@@ -249,6 +221,12 @@ func runChildJobs(c *Ctx, jobs []childJob) {
 			c.Fail(Failure{Kind: "crash", Sig: "C04:panic" + sfx, What: entry + ": child process died: " + clip(o.err.Error()), Case: j.cs})
 		case o.r.Panic != "":
 			c.Fail(Failure{Kind: "crash", Sig: "C04:panic" + sfx, What: entry + " panicked: " + clip(o.r.Panic), Case: j.cs})
+		case o.r.Hang:
+			c.Fail(Failure{Kind: "crash", Sig: "C04:hang" + sfx, What: entry + " did not return within the watchdog", Case: j.cs})
+		default:
+			if j.post != nil {
+				j.post(o.r)
+			}
 		}
 	}
 }
